@@ -14,6 +14,7 @@
   `control_transaction_never_completed_by_data`.  The old counterexample trace is kept as `f5_regression`.
 -/
 import GoSecs.Lemmas.RouterOwn
+import GoSecs.Lemmas.HsmsGen
 import GoSecs.Gen.Facts
 
 namespace GoSecs.Props.C06
@@ -28,6 +29,25 @@ theorem register_sites_gen :
     (Gen.callSites.filter (fun s => s.2.2.2 == "replies.deregister")).map (fun s => (s.1, s.2.2.1)) =
       [("hsms", "connection.sendWaitReply")] := by
   decide
+
+/-- `isSecondaryReply` (regenerated from hsms/connection_runtime.go, with the `WaitBit()` / `Function()` accessors
+    it calls): W-bit clear and even function, read from header bytes 2 and 3 — the discriminator the model's
+    `dispatch` uses to offer a frame to the reply registry, for every data message. -/
+theorem isSecondaryReply_gen (m : Hsms.DataMsg) :
+    Gen.hsms_isSecondaryReply m.toGen = isSecondaryReply m.hdr.wbit m.hdr.function.toNat :=
+  Hsms.isSecondaryReply_gen m
+
+/-- `kindOf` (regenerated from hsms/reply_registry.go): the first optional kind, `replyAny` when omitted; it
+    never indexes an empty slice. -/
+theorem kindOf_gen (ks : Bytes) :
+    Gen.hsms_kindOf ks = some (match ks with | [] => 0 | k :: _ => (k.toNat : Int)) :=
+  Hsms.kindOf_gen ks
+
+/-- The correlation key: `ID()` of a data / control message is `FromSystemBytes` of header bytes 6..9. -/
+theorem correlationKey_gen (m : Hsms.DataMsg) (c : Hsms.ControlMsg) :
+    Gen.hsms_DataMessage_ID m.toGen = (Hsms.idOfSys m.hdr.sys : Int) ∧
+    Gen.hsms_ControlMessage_ID c.toGen = (Hsms.idOfSys c.hdr.sys : Int) :=
+  ⟨Hsms.dataID_gen m, Hsms.controlID_gen c⟩
 
 /-! ## The property -/
 
